@@ -41,4 +41,12 @@ CLAIMED = {
              'under both build profiles; built on the C01/C02/C06/C07 theorems. Correspondence: programs of 1..12 steps over every impl variant (by value / by reference / '
              'assigning, 12 shift-amount types, integer right-hand sides, sum/product) in both profiles. from_num(float)/parsing forwarders are covered by C05/C08 models, not here.',
         design_ref='7/C18', note=COMMON_NOTE, technique='Lean 4 proof (induction over programs) over executable model + differential correspondence'),
+    'C04': dict(
+        text='Theorem SfxProps.C04.holds (full strength): for EVERY ordered pair of valid layouts (integers = zero-fraction layouts) and every source value the '
+             'overflowing/checked/wrapping/saturating/plain conversion forms equal the documented functions of the exact result floor(x*2^fd/2^fs); From is '
+             'value-preserving and cannot overflow under its type-level bound, LossyFrom loses only fractional bits, and the bound is tight (bound_tight). Built on a '
+             'proved specification of to_fixed_helper (neg/dir/bits/overflow, all shift amounts incl. >= 128). Correspondence: helper hook on all primitives, typed '
+             'conversions for every family pair x {0, mid, n}^2 fractional bits and all 12 integer types + bool, both profiles. The From/LossyFrom admissibility table of '
+             'convert.rs is not yet regenerated by the translator (the predicate is stated in Lean by hand).',
+        design_ref='7/C04', note=COMMON_NOTE, technique='Lean 4 proof over executable model + differential correspondence'),
 }
